@@ -9,6 +9,7 @@ TABLE = {
     "C04": ("bounded.c04", "run_c04"), "C05": ("bounded.c04", "run_c05"), "C06": ("bounded.c04", "run_c06"), "C07": ("bounded.c04", "run_c07"),
     "C08": ("bounded.c08", "run_c08"),
     "C09": ("bounded.c09", "run_c09"), "C10": ("bounded.c09", "run_c10"),
+    "C11": ("bounded.c11", "run_c11"), "C12": ("bounded.c11", "run_c12"), "C13": ("bounded.c11", "run_c13"), "C14": ("bounded.c11", "run_c14"),
     "C17": ("bounded.c17", "run_c17"), "C18": ("bounded.c17", "run_c18"),
 }
 
